@@ -188,6 +188,35 @@ def check_fit(chk) -> None:
     _check_fit_rest(chk, fi, fm, f, c, _try)
 
 
+def _enclosing_loop(fn: ast.AST, node: ast.AST) -> Optional[ast.For]:
+    best = None
+    for l in ast.walk(fn):
+        if isinstance(l, ast.For) and any(n is node for b in l.body for n in ast.walk(b)):
+            best = l  # ast.walk is breadth-first: the last hit is the innermost
+    return best
+
+
+def _column_sources(value: ast.AST, scope: ast.For) -> Set[str]:
+    """Keys k of every `df_fitted[k]` the value is computed from, following local names through their assignments inside `scope`
+    ('?' for a data source that is not a column of the fitted frame: another frame, a call result that is not a conversion of those)."""
+    seen: Set[str] = set()
+    out: Set[str] = set()
+    todo = [value]
+    assigns: Dict[str, List[ast.AST]] = {}
+    for st in ast.walk(scope):
+        if isinstance(st, ast.Assign) and len(st.targets) == 1 and isinstance(st.targets[0], ast.Name):
+            assigns.setdefault(st.targets[0].id, []).append(st.value)
+    while todo:
+        e = todo.pop()
+        for n in ast.walk(e):
+            if isinstance(n, ast.Subscript) and isinstance(n.value, ast.Name) and n.value.id in ("df_fitted", "df"):
+                out.add(norm(n.slice) if n.value.id == "df_fitted" else "?")
+            elif isinstance(n, ast.Name) and isinstance(n.ctx, ast.Load) and n.id in assigns and n.id not in seen:
+                seen.add(n.id)
+                todo.extend(assigns[n.id])
+    return out
+
+
 def _residue_count(chk, fi) -> None:
     """Residues per chain = number of distinct (number, insertion code) pairs per chain; its maximum (0 for no chains) is what the limit is applied to.
     Read after normalisation: nested single-return functions as lambdas, `x = 0; if t: x = v` as a conditional expression, names inlined."""
@@ -432,10 +461,14 @@ def _check_fit_rest(chk, fi, fm, f, c, _try) -> None:
                 n_st += 1
                 if kn in allowed_vars:
                     continue
-                if kn == "col":
+                loop = _enclosing_loop(fi.node, s)
+                if isinstance(key, ast.Name) and loop is not None and isinstance(loop.target, ast.Name) and loop.target.id == kn:
+                    # a store into the column the loop is at: allowed when the value is computed from that column only (a conversion of
+                    # the column onto itself, possibly through locals), or creates the column when it is absent
                     v = norm(s.value)
-                    selfmap = "df_fitted[col]" in v and not [x for x in ast.walk(s.value) if isinstance(x, ast.Subscript) and norm(x.value) == "df_fitted" and norm(x.slice) != "col"]
-                    create = v == "pd.Series(dtype='object')" and any(norm(g2.test) == "col not in df_fitted.columns" and g2.polarity for g2 in facts(fm.of(s).guards))
+                    srcs = _column_sources(s.value, loop)
+                    selfmap = bool(srcs) and srcs == {kn}
+                    create = v == "pd.Series(dtype='object')" and any(norm(g2.test) == f"{kn} not in df_fitted.columns" and g2.polarity for g2 in facts(fm.of(s).guards))
                     if selfmap or create:
                         continue
                 chk.violation("frame-condition", fi.site(s), f"`{norm(s)[:80]}` stores into a column other than serial/chain/number/insertion code (or is not a type conversion of the column onto itself): data of another field are overwritten", K(fi, f"store:{kn}"))
@@ -443,20 +476,95 @@ def _check_fit_rest(chk, fi, fm, f, c, _try) -> None:
     drops = sorted(norm(c2) for c2 in astq.calls(fi.node, "drop"))
     chk.expect(drops == ["df_fitted.drop(columns=[new_resseq_col], inplace=True)", "df_fitted.drop(columns=[new_serial_col], inplace=True)"], "frame-condition", fi.where, "only the two temporaries are dropped", f"columns dropped: {drops}", K(fi, "drops"))
     # dtype typestate: fillna on a bare column only after add_categories / astype(object)
+    from sa import paths as PT
+
     for c2 in astq.calls(fi.node, "fillna"):
         recv = c2.func.value
         if isinstance(recv, ast.Call) and astq.callee_name(recv) == "astype":
             chk.ok("dtype-typestate", fi.site(c2), f"`{norm(recv)[:50]}` is converted before fillna")
             continue
-        st = fm.stmt_of(c2)
-        fs = facts(fm.of(st).guards)
-        blk_ok = any(norm(g2.test) == "has_nans" and g2.polarity for g2 in fs) and "add_categories" in norm(fi.node)
-        chk.expect(blk_ok, "dtype-typestate", fi.site(c2), "fillna on a categorical column happens after the new category was added", f"`{norm(c2)[:70]}` fills a possibly categorical column with a new value without astype(object)/add_categories: TypeError", K(fi, f"fillna:{norm(recv)[:40]}"))
-    # rename map
+        # typestate along every path of the enclosing loop body that reaches the fillna: before it the filled value was added to the
+        # categories, or was established to be one of them already
+        fill = norm(c2.args[0]) if c2.args else "?"
+        loop = _enclosing_loop(fi.node, c2)
+        body = loop.body if loop is not None else fi.node.body
+        reach = unsafe = 0
+        try:
+            for events, exit_ in PT.paths(body):
+                idx = next((k for k, ev in enumerate(events) if ev[0] == "stmt" and any(n is c2 for n in ast.walk(ev[1]))), None)
+                if idx is None:
+                    continue
+                reach += 1
+                safe = False
+                for ev in events[:idx]:
+                    if ev[0] == "stmt" and any(isinstance(n, ast.Call) and isinstance(n.func, ast.Attribute) and n.func.attr == "add_categories" and fill in norm(n) for n in ast.walk(ev[1])):
+                        safe = True
+                    if ev[0] == "test" and ".categories" in ev[1]:
+                        t = norm(ev[3])
+                        if (t.startswith(f"{fill} not in ") and ev[2] is False) or (t.startswith(f"{fill} in ") and ev[2] is True):
+                            safe = True
+                if not safe:
+                    unsafe += 1
+        except Exception as ex:
+            chk.error("dtype-typestate", fi.site(c2), f"paths to `{norm(c2)[:50]}` not enumerable ({type(ex).__name__})")
+            continue
+        if reach == 0:
+            chk.error("dtype-typestate", fi.site(c2), f"no path to `{norm(c2)[:50]}` found")
+            continue
+        chk.expect(unsafe == 0, "dtype-typestate", fi.site(c2), f"{reach} paths: fillna on a categorical column happens only after the new category was added (or is present)", f"`{norm(c2)[:70]}` fills a possibly categorical column with a new value without astype(object)/add_categories on {unsafe} of {reach} paths: TypeError", K(fi, f"fillna:{norm(recv)[:40]}"))
+    _rename_rules(chk, fi, fm, f, _try)
+    ess = None
+    for s in ast.walk(fi.node):
+        if isinstance(s, ast.Assign) and norm(s.targets[0]) == "pdb_essential_cols":
+            ess = f.try_fold(s.value)
+    chk.expect(ess == list(spec("pdb_columns.json")["atom"].keys())[:0] + ["record_type", "serial", "name", "altLoc", "resName", "chainID", "resSeq", "iCode", "x", "y", "z", "occupancy", "tempFactor", "element", "charge", "model"], "essential-columns", fi.where, "the 16 PDB columns exist in the fitted table", "the list of essential PDB columns changed", K(fi, "essential"))
+    fmt = [s for s in fi.node.body if isinstance(s, ast.Assign) and norm(s) == "df_fitted.attrs['format'] = 'PDB'"]
+    rets = [r for r in fi.node.body if isinstance(r, ast.Return)]
+    chk.expect(len(fmt) == 1 and len(rets) == 1 and norm(rets[0].value) == "df_fitted", "result", fi.where, "the fitted copy is tagged PDB and returned", "the fitted table is not tagged format=PDB and returned", K(fi, "result"))
+
+
+def _rename_rules(chk, fi, fm, f, _try) -> None:
+    """The map that renames mmCIF items to PDB columns: injective on the columns of the table, and sending the item write_pdb prefers for
+    each field to that field.  Evaluated per class of table when the construction is pure Python; read off the folded literal otherwise."""
+    from checks import c10e
+    from checks.c08e import evidence
+    from sa.blockeval import Unknown
+
+    repo = chk.repo
+    wp = repo.func(M, "write_pdb")
+    cif = c09.extract_atom_data(wp, "mmCIF")
+    alias = {"record_name": "record_type"}
+    maps = None
+    try:
+        maps = c10e.rename_maps(chk, fi)
+    except AnalysisError:
+        raise
+    except Unknown as ex:
+        chk.ok("rename-eval", fi.where, f"rename map not evaluable ({str(ex)[:70]}): the folded literal decides")
+    except Exception as ex:
+        chk.ok("rename-eval", fi.where, f"evaluation of the rename map failed internally ({type(ex).__name__}): the folded literal decides")
+    if maps is not None and cif:
+        with evidence(chk, "rename-injective", "rename-coverage"):
+            miss: Dict[str, Any] = {}
+            for tag, cols, mp in maps:
+                after = [mp.get(c2, c2) for c2 in cols]
+                dup = sorted({v for v in after if after.count(v) > 1})
+                who = {v: [c2 for c2 in cols if mp.get(c2, c2) == v] for v in dup}
+                chk.expect(not dup, "rename-injective", fi.where, f"evaluated ({tag}): no two columns of the table end up with the same PDB name", f"table with {tag}: columns {who.get(dup[0]) if dup else ''} are both renamed to `{dup[0] if dup else ''}`: duplicate column names break every later column access", K(fi, "rename-dup"), found=who)
+                for k, srcs in cif.items():
+                    fld = alias.get(k, k)
+                    present = [i2 for i2 in srcs if i2 in cols]
+                    if not present:
+                        continue
+                    pref = present[0]
+                    if mp.get(pref, pref) != fld:
+                        miss[pref] = [fld, mp.get(pref), tag]
+            chk.expect(not miss, "rename-coverage", fi.where, f"evaluated on {len(maps)} classes of table: every mmCIF item write_pdb prefers for a field is renamed to that field", "an mmCIF item that write_pdb reads is not renamed to its PDB column: the fitted table gets an empty column and the data are lost", K(fi, "rename-coverage"), found=miss)
+        return
     rm = astq.first_assign(fi.node, "rename_map")
     base = f.try_fold(rm) if rm is not None else None
     if not isinstance(base, dict):
-        chk.error("rename-map", fi.where, "rename_map does not fold to a dict literal")
+        chk.error("rename-map", fi.where, "the rename map is neither evaluable nor a dict literal bound to `rename_map`")
         return
     vals = list(base.values())
     dup = sorted({v for v in vals if vals.count(v) > 1})
@@ -471,9 +579,6 @@ def _check_fit_rest(chk, fi, fm, f, c, _try) -> None:
             ok = all(f"'{r}' not in df_fitted.columns" in gs for r in rivals)
             chk.expect(ok, "rename-injective", fi.site(s), f"{k} -> {v} only when {rivals} is absent", f"conditional rename {k} -> {v} is not guarded by the absence of {rivals}", K(fi, f"rename-cond:{k}"))
     # coverage against write_pdb's mmCIF preferences
-    wp = repo.func(M, "write_pdb")
-    cif = c09.extract_atom_data(wp, "mmCIF")
-    alias = {"record_name": "record_type"}
     miss = {}
     for k, srcs in cif.items():
         fld = alias.get(k, k)
@@ -486,14 +591,6 @@ def _check_fit_rest(chk, fi, fm, f, c, _try) -> None:
             if i > 0 and tgt is not None and tgt != fld:
                 miss[item] = [fld, tgt]  # a fallback item, when renamed at all, must go to the same field
     chk.expect(not miss, "rename-coverage", fi.where, "every mmCIF item write_pdb reads a field from is renamed to that field", "an mmCIF item that write_pdb reads is not renamed to its PDB column: the fitted table gets an empty column and the data are lost", K(fi, "rename-coverage"), found=miss)
-    ess = None
-    for s in ast.walk(fi.node):
-        if isinstance(s, ast.Assign) and norm(s.targets[0]) == "pdb_essential_cols":
-            ess = f.try_fold(s.value)
-    chk.expect(ess == list(spec("pdb_columns.json")["atom"].keys())[:0] + ["record_type", "serial", "name", "altLoc", "resName", "chainID", "resSeq", "iCode", "x", "y", "z", "occupancy", "tempFactor", "element", "charge", "model"], "essential-columns", fi.where, "the 16 PDB columns exist in the fitted table", "the list of essential PDB columns changed", K(fi, "essential"))
-    fmt = [s for s in fi.node.body if isinstance(s, ast.Assign) and norm(s) == "df_fitted.attrs['format'] = 'PDB'"]
-    rets = [r for r in fi.node.body if isinstance(r, ast.Return)]
-    chk.expect(len(fmt) == 1 and len(rets) == 1 and norm(rets[0].value) == "df_fitted", "result", fi.where, "the fitted copy is tagged PDB and returned", "the fitted table is not tagged format=PDB and returned", K(fi, "result"))
 
 
 def run(chk) -> None:
